@@ -108,7 +108,8 @@ func newL2Env(o L2EnvOpts) *L2Env {
 }
 
 func (e *L2Env) BridgeInfo(clientID string, oracle bool) opchildtypes.BridgeInfo {
-	cfg := bridgeConfig(sim.NewAccount("proposer1").String(), sim.NewAccount("challenger1").String(), 10*time.Second, nil)
+	// proposer / challenger are L1 accounts, written in the L1's own address format (another bech32 prefix)
+	cfg := bridgeConfig(wrongPrefixAddr(sim.NewAccount("proposer1").Addr), wrongPrefixAddr(sim.NewAccount("challenger1").Addr), 10*time.Second, nil)
 	cfg.OracleEnabled = oracle
 	return opchildtypes.BridgeInfo{
 		BridgeId:     e.BridgeID,
